@@ -86,10 +86,13 @@ where
         sci_exp = 0;
     }
 
+    // The break points count digits of the radix: scale the binary exponent.
+    let digit_sci_exp = sci_exp.div_euclid(fast_log2(radix));
+
     write_float!(
         float,
         FORMAT,
-        sci_exp,
+        digit_sci_exp,
         options,
         write_float_scientific,
         write_float_positive_exponent,
